@@ -100,8 +100,8 @@ type icRun struct {
 	stuck        []string
 	leaked       []string
 	pre          map[int]*Entry[int, int] // entry objects resident after the pre-history, by (actual) key
-	leakedAtIdle []string    // store goroutines alive when all clients had finished and Close had returned
-	final        map[int]int // resident map at the end (before Close)
+	leakedAtIdle []string                 // store goroutines alive when all clients had finished and Close had returned
+	final        map[int]int              // resident map at the end (before Close)
 	finalN       int
 	est          int
 	pairs        map[[2]int]string
